@@ -22,6 +22,10 @@
 //!             (Var)ColorLine numStops{0,1,255,MAX} × that line's first stop varIndexBase;
 //!             clip startGlyphID × endGlyphID.
 //!   part 3:   every paint format 1..=32 as the *last object* of a COLR table × 0..=4 missing trailing bytes.
+//!   part 4:   chains of depth {63, 64, 65, 200, 5 000, 300 000} of each wrapper paint (transform formats 12..=31,
+//!             PaintGlyph, PaintComposite via source / backdrop, PaintColrLayers and PaintColrGlyph indirection)
+//!             ending in a PaintSolid: the traversal depth limit (64) and stack exhaustion (a stack overflow
+//!             kills the worker and is reported by the supervisor as `colridx: stack overflow in …`).
 //! Each item: for glyph ids {1,2,3,4,0xFFFF} and both formats, `ColorGlyph::paint` (recording painter, both
 //! `paint_cached_color_glyph` answers) and `bounding_box` at the default location and at wght = +1.0.
 //! Oracle: returns, never panics (C20: no overflow / debug-assert panic).
@@ -480,10 +484,153 @@ pub fn items(part: u64) -> Vec<Item> {
     out
 }
 
+// ---------------------------------------------------------------------------------------------
+// part 4: deep chains of wrapper paints (traversal depth limit 64; stack exhaustion)
+// ---------------------------------------------------------------------------------------------
+
+/// Wrapper kinds: the 20 transform formats 12..=31, PaintGlyph, PaintComposite through its source / its
+/// backdrop, and the PaintColrLayers / PaintColrGlyph indirections.
+pub const DEEP_KINDS: usize = 25;
+pub const DEEP_DEPTHS: [usize; 6] = [63, 64, 65, 200, 5_000, 300_000];
+
+pub fn deep_kind_name(kind: usize) -> String {
+    match kind {
+        0..=19 => format!("paint format {}", 12 + kind),
+        20 => "PaintGlyph".into(),
+        21 => "PaintComposite via source".into(),
+        22 => "PaintComposite via backdrop".into(),
+        23 => "PaintColrLayers indirection".into(),
+        _ => "PaintColrGlyph indirection (depth capped at 60000 glyph ids)".into(),
+    }
+}
+
+const SOLID: [u8; 5] = [2, 0, 1, 0x40, 0];
+
+/// COLR v1 table whose glyph 2 is a chain of `depth` wrapper paints of `kind` ending in a PaintSolid.
+pub fn deep_table(kind: usize, depth: usize) -> Vec<u8> {
+    let header = |bgl_len: usize, layer_list: bool| {
+        let mut t = vec![0u8, 1, 0, 0];
+        t.extend_from_slice(&[0; 10]);
+        t.extend_from_slice(&34u32.to_be_bytes());
+        t.extend_from_slice(&(if layer_list { 34 + bgl_len as u32 } else { 0 }).to_be_bytes());
+        t.extend_from_slice(&[0; 12]);
+        t
+    };
+    match kind {
+        0..=22 => {
+            // one wrapper record repeated `depth` times, child right after it
+            let mut rec: Vec<u8> = match kind {
+                0..=19 => {
+                    let format = 12 + kind as u8;
+                    let size = PAINT_SIZES[format as usize];
+                    let mut r = vec![format];
+                    if format <= 13 {
+                        let affine = if format == 13 { 28 } else { 24 };
+                        r.extend_from_slice(&((7 + affine) as u32).to_be_bytes()[1..]);
+                        r.extend_from_slice(&[0, 0, 7]);
+                        for v in [0x10000u32, 0, 0, 0x10000, 0, 0] {
+                            r.extend_from_slice(&v.to_be_bytes());
+                        }
+                        if format == 13 {
+                            r.extend_from_slice(&[0, 0, 0, 0]);
+                        }
+                    } else {
+                        r.extend_from_slice(&(size as u32).to_be_bytes()[1..]);
+                        while r.len() < size {
+                            r.push(1);
+                        }
+                        if format % 2 == 1 {
+                            let n = r.len();
+                            r[n - 4..].copy_from_slice(&[0, 0, 0, 0]);
+                        }
+                    }
+                    r
+                }
+                20 => vec![10, 0, 0, 6, 0, 1],
+                _ => vec![32, 0, 0, 0, 3, 0, 0, 0],
+            };
+            let rl = rec.len();
+            let mut bgl = 1u32.to_be_bytes().to_vec();
+            bgl.extend_from_slice(&[0, 2]);
+            bgl.extend_from_slice(&10u32.to_be_bytes());
+            for i in 0..depth {
+                if kind >= 21 {
+                    // composite: one side continues the chain (offset 8), the other points at the final solid
+                    let to_solid = ((depth - i) * rl) as u32;
+                    let (src, bd) = if kind == 21 { (8u32, to_solid) } else { (to_solid, 8) };
+                    rec[1..4].copy_from_slice(&src.to_be_bytes()[1..]);
+                    rec[5..8].copy_from_slice(&bd.to_be_bytes()[1..]);
+                }
+                bgl.extend_from_slice(&rec);
+            }
+            bgl.extend_from_slice(&SOLID);
+            let mut t = header(bgl.len(), false);
+            t.extend(bgl);
+            t
+        }
+        23 => {
+            // root: PaintColrLayers(1 layer, first 0); layer i = PaintColrLayers(1, i+1); last layer = solid
+            let mut bgl = 1u32.to_be_bytes().to_vec();
+            bgl.extend_from_slice(&[0, 2]);
+            bgl.extend_from_slice(&10u32.to_be_bytes());
+            bgl.extend_from_slice(&[1, 1, 0, 0, 0, 0]);
+            let n = depth; // layers 0..depth-1 chain, layer depth-1 … last is the solid
+            let mut ll = (n as u32).to_be_bytes().to_vec();
+            let base = 4 + 4 * n;
+            for i in 0..n {
+                ll.extend_from_slice(&((base + 6 * i) as u32).to_be_bytes());
+            }
+            for i in 0..n {
+                if i + 1 == n {
+                    ll.extend_from_slice(&SOLID);
+                } else {
+                    ll.extend_from_slice(&[1, 1]);
+                    ll.extend_from_slice(&(i as u32 + 1).to_be_bytes());
+                }
+            }
+            let mut t = header(bgl.len(), true);
+            t.extend(bgl);
+            t.extend(ll);
+            t
+        }
+        _ => {
+            // glyph 2+i -> PaintColrGlyph(2+i+1); the last one -> solid
+            let n = depth.min(60_000);
+            let mut bgl = (n as u32 + 1).to_be_bytes().to_vec();
+            let paints = 4 + 6 * (n + 1);
+            for i in 0..=n {
+                bgl.extend_from_slice(&(2 + i as u16).to_be_bytes());
+                bgl.extend_from_slice(&((paints + 3 * i) as u32).to_be_bytes());
+            }
+            for i in 0..n {
+                bgl.push(11);
+                bgl.extend_from_slice(&(3 + i as u16).to_be_bytes());
+            }
+            bgl.extend_from_slice(&SOLID);
+            let mut t = header(bgl.len(), false);
+            t.extend(bgl);
+            t
+        }
+    }
+}
+
+pub fn deep_item(idx: u64) -> Item {
+    let kind = idx as usize / DEEP_DEPTHS.len();
+    let depth = DEEP_DEPTHS[idx as usize % DEEP_DEPTHS.len()];
+    Item {
+        desc: format!("chain of {depth} x {} ending in PaintSolid", deep_kind_name(kind)),
+        colr: deep_table(kind, depth),
+    }
+}
+pub const DEEP_ITEMS: u64 = (DEEP_KINDS * 6) as u64;
+
 pub fn describe(spec: &Value) -> String {
     let (Some(part), Some(idx)) = (spec["part"].as_u64(), spec["only"].as_u64()) else {
         return String::new();
     };
+    if part == 4 {
+        return if idx < DEEP_ITEMS { deep_item(idx).desc } else { String::new() };
+    }
     items(part).get(idx as usize).map(|i| i.desc.clone()).unwrap_or_default()
 }
 
@@ -535,6 +682,9 @@ pub fn exercise(acc: &mut Acc, font_bytes: &[u8]) -> (u64, u64) {
                             }
                             Err(e) => {
                                 acc.count("paint_err");
+                                if std::env::var("C02_DEBUG").is_ok() {
+                                    eprintln!("paint error: {e:?}");
+                                }
                                 h.byte(2);
                                 h.str(&format!("{e:?}"));
                             }
@@ -571,13 +721,26 @@ impl Default for Parts {
 
 /// `{"driver":"colridx","part":0|1|2,"only":idx?,"from":idx?}`
 pub fn drive(spec: &Value) -> CaseOut {
-    let Some(part) = spec["part"].as_u64().filter(|p| *p <= 3) else {
+    let Some(part) = spec["part"].as_u64().filter(|p| *p <= 4) else {
         return crate::bad_case(format!("bad colridx case {spec}"));
     };
     let parts = Parts::new();
     let mut acc = Acc::new("colridx");
     let only = spec["only"].as_u64();
     let from = spec["from"].as_u64().unwrap_or(0);
+    if part == 4 {
+        // built one at a time: the deepest tables are several MB each
+        for idx in from..DEEP_ITEMS {
+            if only.map(|o| o != idx).unwrap_or(false) {
+                continue;
+            }
+            set_sub(idx);
+            acc.sub_override = Some(idx);
+            acc.evals += 1;
+            exercise(&mut acc, &parts.build(deep_item(idx).colr));
+        }
+        return acc.finish();
+    }
     for (idx, item) in items(part).into_iter().enumerate() {
         let idx = idx as u64;
         if idx < from || only.map(|o| o != idx).unwrap_or(false) {
@@ -592,7 +755,7 @@ pub fn drive(spec: &Value) -> CaseOut {
 }
 
 pub fn gen_cases() -> Vec<Value> {
-    (0..4).map(|p| json!({"driver": "colridx", "part": p})).collect()
+    (0..5).map(|p| json!({"driver": "colridx", "part": p})).collect()
 }
 
 pub fn bounds() -> Value {
@@ -601,6 +764,7 @@ pub fn bounds() -> Value {
         "values_per_field": "0, 1, MAX-255, MAX-1, MAX, MAX/2, MAX/2+1 of the field width",
         "items": [items(0).len(), items(1).len(), items(2).len(), items(3).len()],
         "part3": "each paint format 1..=32 as the last object of the table x 0..=4 missing bytes",
+        "part4_deep_chains": {"wrapper_kinds": (0..DEEP_KINDS).map(deep_kind_name).collect::<Vec<_>>(), "depths": DEEP_DEPTHS, "tables": DEEP_ITEMS},
         "pairs": "PaintColrLayers.firstLayerIndex x numLayers{0,1,255} x LayerList.numLayers{0,1,3,MAX}; v0 firstLayerIndex x numLayers{0,1,255,MAX} x numLayerRecords{0,2,MAX}; every varIndexBase x mapCount{0,1,4,MAX}; VarColorLine numStops{0,1,255,MAX} x stop0.varIndexBase; clip start x end",
         "glyph_ids": [1, 2, 3, 4, 65535], "locations": ["default", "wght +1.0"]})
 }
